@@ -3,6 +3,7 @@
   PARTIAL: the decision logic, the pool and the watcher state machine are proved; handshake behaviour (crypto/tls,
   x509 chain building) and timer scheduling are trusted / exercised by real handshakes in the differential run.
 -/
+import AuthProofs.StateInventory
 import AuthProofs.Tls
 import AuthModel.Generated.Facts
 namespace AuthProps.C20
@@ -78,6 +79,9 @@ example : lookupPool (tickAll oX (rewrite (load oX st1 sFile).1 (B "/ca") (some 
 example : (load oX init { caInline := [], caFile := [], skip := .str (B "true"), interval := 0 }).2
     = .cfg { insecure := true, extra := none } := by decide
 
+/-- NO HIDDEN STATE: regenerated inventory of package internal (loader, TLS pool, file watcher), internal/http and internal/k8s: the only mutable state is the watcher table, the pool map and the secret index. -/
+theorem no_hidden_state : InfraInventory := infra_inventory
+
 end AuthProps.C20
 
 #print axioms AuthProps.C20.trust_decision
@@ -90,3 +94,4 @@ end AuthProps.C20
 #print axioms AuthProps.C20.rotation_leaves_others
 #print axioms AuthProps.C20.unparsable_rotation_ignored
 #print axioms AuthProps.C20.pool_and_watchers_locked
+#print axioms AuthProps.C20.no_hidden_state
